@@ -180,7 +180,7 @@ func siblingDiffs(all map[string][]cmpSite) []sibDiff {
 				for _, it := range items {
 					found := false
 					for _, s := range pool {
-						if canonCut(s.pr, s.op) == it.r || (canonCutAbs(s.pa, s.op) == it.a && canonCutAbs(s.pra, s.op) == it.ra) {
+						if canonCut(s.pr, s.op) == it.r || canonCutAbs(s.pa, s.op) == it.a || canonCutAbs(s.pra, s.op) == it.ra {
 							found = true
 							break
 						}
